@@ -36,18 +36,7 @@ def entry_agreement(F, rep):
     rep.ob("entry.gecko-writer", w_ok, peppifmt.WRITE, "gecko_codes.raw", "the gecko entry must be actual_size as 4 little-endian bytes followed by the blob")
     rep.ob("entry.gecko-reader", r_ok and all((c or "").endswith("from_le_bytes") for c in le_calls) and len(le_calls) == 1, "io::peppi::de::read_peppi_gecko_codes", "gecko_codes.raw",
            "the gecko entry must be read back as 4 little-endian bytes of actual_size followed by the blob; conversions: %s" % le_calls, sample={"conversion": le_calls})
-    # raw start/end: whole entry handed to the .slp decoders
-    for fn, dec in (("io::peppi::de::read_peppi_start", "io::slippi::de::game_start"), ("io::peppi::de::read_peppi_end", "io::slippi::de::game_end")):
-        b = F.body(fn)
-        whole = False
-        filled = None
-        for x in tir.walk(b["tir"]["value"]):
-            if x.get("k") == "MethodCall" and x["method"] == "read_to_end":
-                filled = L.local_name(strip(x["args"][0]))
-            if x.get("k") == "Call" and declared(x) == dec:
-                a = strip(x["args"][0])     # strip peels `&mut`, `&x[..]` and `.as_slice()`: the whole buffer
-                whole = L.local_name(a) == filled and filled is not None
-        rep.ob("entry.raw-decoder", whole, fn, "decoder", "%s must pass the whole entry to %s" % (fn, dec))
+    raw_decoder_rule(F, rep)
     # optionality
     peppifmt.optionality_rule(F, rep)
     # a JSON entry whose Rust type is Option<_> and which is written unconditionally must be readable when it is `null`
@@ -68,6 +57,21 @@ def entry_agreement(F, rep):
                             null_ok = True
             rep.ob("entry.null", (not is_opt) or (not e["guards"] and null_ok) or bool(e["guards"]), "io::peppi::de::read_peppi_metadata", "null",
                    "metadata is an Option written unconditionally (None renders as JSON null) but the reader rejects null")
+
+
+def raw_decoder_rule(F, rep, rule="entry.raw-decoder"):
+    """raw start/end: the whole entry (read to its end, whatever its length) is handed to the .slp decoders"""
+    for fn, dec in (("io::peppi::de::read_peppi_start", "io::slippi::de::game_start"), ("io::peppi::de::read_peppi_end", "io::slippi::de::game_end")):
+        b = F.body(fn)
+        whole = False
+        filled = None
+        for x in tir.walk(b["tir"]["value"]):
+            if x.get("k") == "MethodCall" and x["method"] == "read_to_end":
+                filled = L.local_name(strip(x["args"][0]))
+            if x.get("k") == "Call" and declared(x) == dec:
+                a = strip(x["args"][0])     # strip peels `&mut`, `&x[..]` and `.as_slice()`: the whole buffer
+                whole = L.local_name(a) == filled and filled is not None
+        rep.ob(rule, whole, fn, "decoder", "%s must pass the whole entry to %s (the entry's own length decides how much is decoded, as the payload table does in a .slp)" % (fn, dec))
 
 
 def gecko_writer_ok(F, wb):
